@@ -39,6 +39,8 @@ func (g *gen) constName(pkg *Pkg, enum string, i int, exported bool, label strin
 		}
 		if !exported {
 			name = strings.ToLower(name[:1]) + name[1:]
+		} else {
+			name = strings.ToUpper(name[:1]) + name[1:]
 		}
 		if used[name] || goKeyword(name) {
 			continue
@@ -73,6 +75,9 @@ func (g *gen) addEnum(pkg *Pkg, file *File, constFile *File) *tinfo {
 		return enumComments[rapid.IntRange(0, len(enumComments)-1).Draw(t, "constComment")]
 	}
 	memberExported := func(i int) bool {
+		if i == 0 && !g.o.Hostile {
+			return true // an enum without any exported member is outside the documented domain
+		}
 		// unexported members at any position, low weight
 		if rapid.IntRange(0, 7).Draw(t, "memberUnexported") == 0 {
 			if g.o.gated("enum_unexported_member_not_last") && i != n-1 {
